@@ -1,5 +1,5 @@
 (* C07 — Logger context is exact and isolated across derived loggers.
-   Only statements closed by [exact]; the proofs are in C07/{Proofs,Sim,Path,Main,Iso,Alias}.v.
+   Only statements closed by [exact]; the proofs are in C07/{Proofs,Sim,Path,Main,Iso,Alias,Pool,Fault}.v.
 
    Vocabulary (C07/Model.v).  A configuration is a root composition [comp] of cores (JSON, console,
    observer leaves under tee / sampler / hooked / level-increased / lazy wrappers).  A program is a
@@ -16,7 +16,7 @@ From Coq Require Import List ZArith Bool.
 From Coq.Strings Require Import Byte.
 Import ListNotations.
 From Zap Require Import Base.Wire Enc.Bytes Enc.Fields Enc.JsonEnc Enc.JsonAst Enc.Wf.
-From Zap Require Import C07.Model C07.Proofs C07.Sim C07.Path C07.Main C07.Iso C07.Alias.
+From Zap Require Import C07.Model C07.Proofs C07.Sim C07.Path C07.Main C07.Iso C07.Alias C07.Pool C07.Fault.
 
 (* for every configuration, every program (any tree shape, any number of nodes, any order of
    derivations and uses, mutable marshalers included): every logging call makes observable exactly
@@ -207,6 +207,53 @@ Theorem C07_disabled_silent : forall m hi nm msg w fs c ch nn, senabled hi c = f
 Proof. exact swalk_disabled. Qed.
 Print Assumptions C07_disabled_silent.
 
+(* FAULTS.  Sinks may fail the write of any calls ([fls]: per logging call, the sinks whose Write returns an
+   error -- nothing, a part or all of the line consumed; a failing sink keeps nothing of that line).  For every
+   configuration, every program and EVERY such assignment the observation is the specification's ... *)
+Theorem C07_exact_under_faults : forall c ops fls, wf_comp c = true -> forallb wf_op ops = true ->
+  apply_faults fls (run_events c ops) = apply_faults fls (spec_events c ops).
+Proof. exact faults_exact. Qed.
+Print Assumptions C07_exact_under_faults.
+(* ... in which a fault removes the failing sink's own line of that call and nothing else: every sink that
+   did not fail the write of call j -- among them the sink that failed EARLIER writes, and every logger derived
+   after the fault -- holds for call j exactly the fault-free history's line(s); the hook events are untouched;
+   no call is added or lost *)
+Theorem C07_fault_local : forall fls l j k, existsb (Nat.eqb k) (nth j fls []) = false ->
+  filter (is_out k) (nth j (apply_faults fls l) []) = filter (is_out k) (nth j l []).
+Proof. exact fault_local. Qed.
+Print Assumptions C07_fault_local.
+Theorem C07_fault_aux : forall fls l j,
+  filter is_aux (nth j (apply_faults fls l) []) = filter is_aux (nth j l []).
+Proof. exact fault_aux. Qed.
+Print Assumptions C07_fault_aux.
+Theorem C07_fault_dropped : forall fls l j k, existsb (Nat.eqb k) (nth j fls []) = true ->
+  filter (is_out k) (nth j (apply_faults fls l) []) = [].
+Proof. exact fault_dropped. Qed.
+Print Assumptions C07_fault_dropped.
+Theorem C07_fault_free : forall n l, apply_faults (repeat [] n) l = l /\ length (apply_faults (repeat [] n) l) = length l.
+Proof. exact fault_free. Qed.
+Print Assumptions C07_fault_free.
+
+(* the buffer pool (C07/Pool.v): the context buffers of derived loggers come from a process-wide pool into
+   which ioCore.Write puts the entry buffer back exactly once, whether the sink accepted the line or failed.
+   For every program of With and Write steps on any tree of io-backed loggers -- any order, any sink failures,
+   any choice the pool makes among its free buffers (or none: a new buffer) -- every logger's context read in
+   the FINAL heap and every delivered line is the pure value: the context of its parent ++ its own fields;
+   prefix ++ the context of its own logger ++ its call-site fields.  The invariant: free buffers are pairwise
+   distinct and held by no live logger. *)
+Theorem C07_pool_contexts_exact : forall ops s, pinv s ->
+  preads (fold_left (pstep 1) ops s) = fold_left pure_step ops (preads s) /\ pinv (fold_left (pstep 1) ops s).
+Proof. exact pool_contexts_exact. Qed.
+Print Assumptions C07_pool_contexts_exact.
+(* the model can express the failure: with a second Free on the error branch (NOT zap's code: the class of
+   mutation the check must catch) one failed write, then the siblings 1.With(a) and 1.With(b): both read "sb" *)
+Theorem C07_pool_double_free_refuted :
+  fst (preads (fold_left (pstep 2) pool_witness pool0)) = [[]; [x73]; [x73; x62]; [x73; x62]] /\
+  fst (fold_left pure_step pool_witness (preads pool0)) = [[]; [x73]; [x73; x61]; [x73; x62]] /\
+  fst (preads (fold_left (pstep 1) pool_witness pool0)) = [[]; [x73]; [x73; x61]; [x73; x62]].
+Proof. exact pool_double_free_refuted. Qed.
+Print Assumptions C07_pool_double_free_refuted.
+
 (* the oracle the driver runs is the proved specification: [spec] compares the whole observation -- the
    per-call part and the end-of-history part (every entry re-read after the whole program) -- with what
    [spec_events] prescribes *)
@@ -255,6 +302,15 @@ Example C07_example_bytes :
     [x7b;x22;x6c;x65;x76;x65;x6c;x22;x3a;x22;x77;x61;x72;x6e;x22;x2c;x22;x6c;x6f;x67;x67;x65;x72;x22;x3a;x22;x78;x22;x2c;
      x22;x6d;x73;x67;x22;x3a;x22;x6d;x22;x2c;x22;x61;x22;x3a;x22;x31;x22;x7d;x0a].
 Proof. vm_compute. reflexivity. Qed.
+(* the example with the JSON sink failing the write of the second call: that line is lost, the observer's
+   line and the hook event of the same call and every other call are unchanged *)
+Example C07_example_fault :
+  nth 1 (apply_faults [[]; [0]] (run_events ex_comp ex_ops)) [] =
+    [EOut 1 (Some (json_line true [] [x6d] [FString [x61] [x31]; FStringer [x6c] (OOk [x37])])); EHook [] [x6d]] /\
+  nth 2 (apply_faults [[]; [0]] (run_events ex_comp ex_ops)) [] = nth 2 (run_events ex_comp ex_ops) [].
+Proof. vm_compute. split; reflexivity. Qed.
+Example C07_example_pool_inv : pinv pool0.
+Proof. exact pool0_inv. Qed.
 (* the end-of-history view of the example: one element per call, one column per sink; the first call's
    entry on the observer sink is still the line of logger 4 with its own call-site field c=3 *)
 Example C07_example_end_view :
